@@ -162,6 +162,10 @@ class Stats:
                 "known_hits": self.known_hits, "hyp_error": self.hyp_error}
 
 
+class _BudgetExhausted(KeyboardInterrupt):
+    pass
+
+
 def _worker(args):
     (modname, builds, known, w, seed, tier, deadline, nworkers) = args
     try:
@@ -220,9 +224,12 @@ def _worker_inner(modname, builds, known, w, seed, tier, deadline, nworkers):
         @given(check.strategy(tier))
         def prop(case):
             if not failing and time.time() > deadline:
-                # budget exhausted: stop judging (never a violation)
+                # budget exhausted: stop the run (never a violation).  A KeyboardInterrupt subclass is the one
+                # exception Hypothesis lets through without treating it as a failing example; merely returning
+                # would make it go on *generating* the remaining examples, which for 10^4 disc images takes longer
+                # than the budget itself.
                 state["stop"] = True
-                return
+                raise _BudgetExhausted()
             if failing and time.time() > failing["t0"] + SHRINK_S:
                 # shrink budget exhausted: let the shrinker run dry; the smallest
                 # failing case seen so far is kept in `failing`
@@ -237,6 +244,8 @@ def _worker_inner(modname, builds, known, w, seed, tier, deadline, nworkers):
 
         try:
             prop()
+        except _BudgetExhausted:
+            pass
         except AssertionError:
             pass
         except hypothesis.errors.HypothesisException as e:
